@@ -674,6 +674,8 @@ class HyASTCompiler:
                 fcomponent, f"Invalid conversion character {fcomponent.conversion!r}"
             )
         conversion = ord(fcomponent.conversion) if fcomponent.conversion else -1
+        if not fcomponent:
+            raise self._syntax_error(fcomponent, "empty replacement field")
         root, *rest = fcomponent
         value = self.compile(root)
         elts, ret, _ = self._compile_collect(rest)
@@ -685,7 +687,7 @@ class HyASTCompiler:
             value
             + ret
             + (asty.Interpolation if fcomponent.is_tstring else asty.FormattedValue)(
-                fcomponent, value=value.expr, conversion=conversion, format_spec=spec,
+                fcomponent, value=value.force_expr, conversion=conversion, format_spec=spec,
                 **(dict(str=fcomponent.expression) if fcomponent.is_tstring else {}),
             )
         )
